@@ -62,6 +62,12 @@ def run_world(engine, spec, timeout):
                     "tb": traceback.format_exc()[-4000:],
                 }
             try:
+                ru = resource.getrusage(resource.RUSAGE_SELF)
+                rc = resource.getrusage(resource.RUSAGE_CHILDREN)
+                res["rusage"] = [round(ru.ru_utime, 2), round(ru.ru_stime, 2), ru.ru_minflt, round(rc.ru_utime, 2), round(rc.ru_stime, 2), rc.ru_minflt]
+            except Exception:
+                pass
+            try:
                 data = b"\n" + json.dumps(res).encode()
             except Exception as e:
                 data = b"\n" + json.dumps(
@@ -132,6 +138,12 @@ def main():
     engine = importlib.import_module("amosim.engines." + name)
     engine.zygote_init()
     _check_amoco(repo)
+    # everything imported so far is permanent: keep the collector from walking
+    # (and thereby dirtying, page by page, in every forked world) the zygote's heap
+    import gc
+
+    gc.collect()
+    gc.freeze()
     out = sys.stdout
     out.write(json.dumps({"ready": True, "pid": os.getpid()}) + "\n")
     out.flush()
